@@ -7,7 +7,7 @@ use lzma_rust2::{EncodeMode, LZMAOptions, MFType, XZReader};
 use crate::case::{catch, stat_add, CaseOut, Ctx};
 use crate::fio::{drain, FaultyRead, ReadPlan};
 use crate::gen::{self, Family};
-use crate::ours::{decode_bytes, decode_lzip_mt, encode, Container, Spec};
+use crate::ours::{decode_lzip_mt, encode, Container, Spec};
 use crate::util::{first_diff, Rng};
 
 pub const STEER: u64 = 12;
@@ -116,8 +116,13 @@ fn xz_case(ctx: &Ctx, idx: u64, r: &mut Rng) -> Vec<CaseOut> {
     stat_add("xz_streams", n as u64);
     // multi-stream on
     let cap = all.len() + (1 << 20);
+    let short_plan = match r.below(3) {
+        0 => ReadPlan::default(),
+        1 => ReadPlan::one_byte(),
+        _ => ReadPlan { short: vec![3, 1, 2, 5], ..Default::default() },
+    };
     match catch(|| {
-        let mut rd = XZReader::new(file.as_slice(), true);
+        let mut rd = XZReader::new(FaultyRead::new(&file, short_plan.clone()), true);
         drain(&mut rd, &sizes, cap, 4)
     }) {
         Err(p) => out.push(CaseOut::viol(cell.clone(), format!("panic XZReader(multi) @{}", p.site()), p.short_msg(), desc.clone())),
@@ -204,7 +209,14 @@ fn lzip_case(ctx: &Ctx, idx: u64, r: &mut Rng) -> Vec<CaseOut> {
     stat_add("lzip_files", n as u64);
     let cap = all.len() + (1 << 20);
     let mut out = Vec::new();
-    match catch(|| decode_bytes(&Spec { c: Container::Lzip { member: None }, o: opts(&mut Rng::new(1)) }, &file, 0, &sizes, cap)) {
+    let short_plan = match r.below(3) {
+        0 => ReadPlan::default(),
+        1 => ReadPlan::one_byte(),
+        _ => ReadPlan { short: vec![3, 1, 2, 5], ..Default::default() },
+    };
+    match catch(|| {
+        crate::ours::decode_from(&Spec { c: Container::Lzip { member: None }, o: opts(&mut Rng::new(1)) }, FaultyRead::new(&file, short_plan.clone()), 0, &sizes, cap).drain
+    }) {
         Err(p) => out.push(CaseOut::viol(cell.clone(), format!("panic LZIPReader @{}", p.site()), p.short_msg(), desc.clone())),
         Ok(d) => {
             if !d.is_ok() {
